@@ -270,10 +270,40 @@ func c05Prop(st *CaseStats, fam int) func(t *rapid.T) {
 				}
 				live = nl
 				opt.ReplaceActual(sub)
+				desc += fmt.Sprintf(" ReplaceActual(%s)", bmString(sub))
+				if rapid.IntRange(0, 2).Draw(t, "replaceAgain") == 0 && !sub.IsEmpty() {
+					// Bluge keeps ONE intersection bitmap and narrows it in place: the caller removes numbers from
+					// its own bitmap and hands the same object in again; the iterator follows the new contents
+					arr := sub.ToArray()
+					switch rapid.IntRange(0, 2).Draw(t, "narrowHow") {
+					case 0: // drop a tail
+						from := rapid.IntRange(0, len(arr)-1).Draw(t, "narrowFrom")
+						for _, d := range arr[from:] {
+							sub.Remove(d)
+						}
+					case 1: // drop every other one
+						for i, d := range arr {
+							if i%2 == 1 {
+								sub.Remove(d)
+							}
+						}
+					default: // drop the head
+						sub.Remove(arr[0])
+					}
+					nl = nil
+					for _, p := range live {
+						if sub.Contains(uint32(p.Doc)) {
+							nl = append(nl, p)
+						}
+					}
+					live = nl
+					opt.ReplaceActual(sub)
+					labels = append(labels, "replace-actual-same-bitmap-narrowed")
+					desc += fmt.Sprintf(" narrowed in place, ReplaceActual(%s) again", bmString(sub))
+				}
 				replacedBM, replacedCopy = sub, sub.Clone()
 				replaced = true
 				labels = append(labels, "replace-actual")
-				desc += fmt.Sprintf(" ReplaceActual(%s)", bmString(sub))
 			}
 		}
 		cs := uint64(1)
